@@ -72,7 +72,7 @@ def specArr (hs : List ImageHeaderFields) (o : ReaderOptions) : Arr Src :=
     ⟨formattedShape h.nrows h.ncols h o, fun idx => formattedSrc h o (idx 0).toNat (idx 1).toNat (idx 2).toNat⟩
   | _ =>
     let rows := (hs.map (·.nrows)).sum
-    let cols := (hs.head?.map (·.ncols)).getD 0
+    let cols := listMax (hs.map (·.ncols))
     let h0 := hs.head?.getD default
     ⟨formattedShape rows cols h0 o, fun idx => collectionSrc hs o rows cols (idx 0).toNat (idx 1).toNat (idx 2).toNat⟩
 
